@@ -15,10 +15,10 @@ PID = 'C15'
 THEOREMS_PLANNED = ['PyDBML.C15.render_off_ignores_props', 'PyDBML.C15.column_props_shown_iff_enabled',
             'PyDBML.C15.sql_ignores_props']
 THEOREMS = ['PyDBML.C15.column_props_hidden', 'PyDBML.C15.table_props_hidden', 'PyDBML.C15.column_props_shown', 'PyDBML.C15.sql_column_ignores_props',
-            'PyDBML.C15.parseDoc_no_props_when_off', 'PyDBML.C02.flags_table_roundtrip_partial', 'PyDBML.C02.item_ok',
+            'PyDBML.C15.parseDoc_no_props_when_off', 'PyDBML.C02.flags_refs_roundtrip_partial', 'PyDBML.C02.flags_tables_roundtrip_partial', 'PyDBML.C02.flags_table_roundtrip_partial', 'PyDBML.C02.item_ok',
             'PyDBML.C02.fold_append_props', 'PyDBML.C02.dictOf_distinct']
 MODULES = ['PyDBMLProofs.Props.C15', 'PyDBMLProofs.Props.C15Grammar', 'PyDBMLProofs.Hoare', 'PyDBMLProofs.Props.C02Form',
-           'PyDBMLProofs.Props.C02Flags']
+           'PyDBMLProofs.Props.C02Flags', 'PyDBMLProofs.Props.C02FormTables', 'PyDBMLProofs.Props.C02FormRefs', 'PyDBMLProofs.Props.C02FlagsTables']
 
 
 def has_props(spec):
@@ -200,8 +200,8 @@ def main(tier, seed):
         explanation='Theorems: the DBML rendering of a database with the flag off equals that of the same database with all '
                     'properties erased; a column shows its properties iff the flag is on; SQL never depends on properties; parseDoc_no_props_when_off - '
                     'for ANY text parsed with the option off no table or column blueprint carries a property (postcondition logic over '
-                    'the grammar model): `key: value` is never read as a property there; flags_table_roundtrip_partial (PyDBMLProofs/Props/C02Flags.lean) - '
-                    'with the option ON, a table whose columns carry any number of properties `key: \'value\'` next to any subset of pk / increment / '
+                    'the grammar model): `key: value` is never read as a property there; flags_refs_roundtrip_partial / flags_tables_roundtrip_partial / flags_table_roundtrip_partial (PyDBMLProofs/Props/C02Flags*.lean) - '
+                    'with the option ON, a document of any number of tables (and references between them) whose columns carry any number of properties `key: \'value\'` next to any subset of pk / increment / '
                     'unique / not null / a one-line note is rendered and read back to exactly the same database: keys and values exact, order kept '
                     '(hypotheses: keys are pairwise different bare identifiers that no setting word is a caseless prefix of - the recorded finding '
                     'KF-C01-prop-key-kw-prefix -, values are plain lines); with the option OFF the same theorem holds for columns without properties. Model '
